@@ -15,6 +15,6 @@ reg(Prop(
          'level from every node, child_position of every child, front/back/size/empty/reverse iteration, tree::map, ==/!= between all roots. '
          'distinct = hash of the full operation history text.',
     assumptions=COMMON_ASSUMPTIONS + [
-        'side condition: swap and move assignment are only applied to operands that are distinct and not in an ancestor/descendant relation; copy assignment is applied to any two distinct nodes',
+        'side condition: swap is only applied to operands that are distinct and not in an ancestor/descendant relation; move assignment to unrelated operands and to a target whose strict descendant is the source (hoisting), never from an ancestor (that would make a node its own child); copy assignment is applied to any two distinct nodes',
         'node payloads are unique ints (copies are relabelled in both worlds), so the pre-order id sequence identifies the shape'],
 ))
